@@ -18,10 +18,25 @@ def run(ctx):
     json.dump(cases, open(sp, "w"))
     tp = ctx.path("trace.ndjson")
     nmut = 3000 if q else 60000
-    rc, out = vlib.go_test(ctx, "packets", HARNESS, "TestVerifC15$", env={"VERIF_SCEN": sp, "VERIF_OUT": tp, "VERIF_NRANDOM": nmut}, tags="", timeout=1800)
-    if rc != 0:
+    # a call that never returns ends the driver with a Hang event (watchdog); the driver is started again without that case
+    hangs, skip = [], []
+    for attempt in range(40):
+        rc, out = vlib.go_test(ctx, "packets", HARNESS, "TestVerifC15$", tags="", timeout=2400,
+                               env={"VERIF_SCEN": sp, "VERIF_OUT": tp, "VERIF_NRANDOM": nmut, "VERIF_SKIPIDS": ",".join(map(str, skip))})
+        events = vlib.read_ndjson(tp) if os.path.exists(tp) else []
+        if rc == 0:
+            break
+        if events and events[-1]["ev"] == "Hang":
+            hangs.append(events[-1])
+            skip.append(events[-1]["scen"])
+            continue
         raise vlib.MachineryError("packets driver failed:\n" + out[-3000:])
-    events = vlib.read_ndjson(tp)
+    else:
+        raise vlib.MachineryError("packets driver: more than 40 hanging cases")
+    for h in hangs:
+        h["case"] = {"tlvs": [], "hdr": "hang", "payload": "hang"}
+    events = events + hangs
+    ctx.notes["calls_that_never_returned"] = len(hangs)
     for e in events:       # JSON nulls (nil slices) are not representable in TLA+
         for k, v in list(e.items()):
             if v is None:
@@ -42,12 +57,18 @@ def run(ctx):
             vlib.add_case(ctx, e["case"], nontrivial=len(e["case"]["tlvs"]) > 0)
         elif e["ev"] == "Roundtrip":
             vlib.add_case(ctx, e["ctor"], nontrivial=True)
+        elif e["ev"] == "Hang":
+            pass
         else:
             ctx.evaluations += 1
     ctx.samples = [e["case"] for e in events[:3] if e["ev"] == "Decode"] + [e["ctor"] for e in events if e["ev"] == "Roundtrip"][:2]
     for v in viols:
         e = events[v["line"] - 1]
         sig = {"predicate": v["predicate"], "kind": e["kind"]}
+        if e["ev"] == "Hang":
+            sig["call"] = e["call"]
+            vlib.report_violation(ctx, sig, {"hang": e})
+            continue
         if e["ev"] == "Decode":
             pn = e.get("panics") or []
             sig["panic_in"] = sorted({p.split(":")[0] for p in pn})
